@@ -260,6 +260,21 @@ func (eng *Engine) inferRenaming(fn *ssa.Function, modes Modes, spec map[string]
 			cands = append(cands, l)
 		}
 	}
+	// a renamed parameter: the one parameter the contract does not mention (only if there is exactly one, so that the
+	// meaning of the pre- and postconditions cannot be changed by the choice)
+	paramCand := ""
+	{
+		var un []string
+		for _, p := range fn.Params {
+			if !mentioned[p.Name()] && p.Name() != "" && p.Name() != "_" {
+				un = append(un, p.Name())
+			}
+		}
+		if len(un) == 1 {
+			paramCand = un[0]
+			cands = append(cands, paramCand)
+		}
+	}
 	if len(cands) == 0 {
 		return nil
 	}
@@ -295,7 +310,26 @@ func (eng *Engine) inferRenaming(fn *ssa.Function, modes Modes, spec map[string]
 		if err != nil {
 			return nil
 		}
-		return eng.verifyFunctionWith(fn, modes, spec, c2)
+		for _, to := range m {
+			if to == paramCand && paramCand != "" {
+				// a parameter: the pre- and postconditions speak of it too, and callers use them
+				if c2, err = renameInterface(c2, m); err != nil {
+					return nil
+				}
+			}
+		}
+		r := eng.verifyFunctionWith(fn, modes, spec, c2)
+		if r != nil && r.Err == "" {
+			for _, to := range m {
+				if to == paramCand && paramCand != "" {
+					if eng.ctOverride == nil {
+						eng.ctOverride = map[string]*Contract{}
+					}
+					eng.ctOverride[shortFn(fn)] = c2
+				}
+			}
+		}
+		return r
 	}
 	errNow := firstErr
 	if len(mapping) > 0 {
@@ -392,7 +426,7 @@ func (eng *Engine) clauseOwner(errText string) *ssa.Function {
 		for _, cut := range ct.Cuts {
 			found = found || has([]*Clause{cut.Cl})
 		}
-		found = found || has(ct.Uses)
+		found = found || has(ct.Uses) || has(ct.Requires) || has(ct.Ensures) || has(ct.Lets) || has(ct.Modifies) || has(ct.Decreases)
 		if found {
 			if fn := eng.fnByKey[key]; fn != nil {
 				return fn
@@ -400,4 +434,46 @@ func (eng *Engine) clauseOwner(errText string) *ssa.Function {
 		}
 	}
 	return nil
+}
+
+// renameInterface: requires / ensures / modifies / lets / decreases of the contract renamed (a renamed parameter)
+func renameInterface(ct *Contract, m map[string]string) (*Contract, error) {
+	c2 := *ct
+	var err error
+	rnl := func(cs []*Clause) []*Clause {
+		var out []*Clause
+		for _, cl := range cs {
+			if err != nil {
+				out = append(out, cl)
+				continue
+			}
+			var c *Clause
+			c, err = renameClause(cl, m)
+			out = append(out, c)
+		}
+		return out
+	}
+	c2.Requires = rnl(ct.Requires)
+	c2.Ensures = rnl(ct.Ensures)
+	c2.Modifies = rnl(ct.Modifies)
+	c2.Decreases = rnl(ct.Decreases)
+	lets := rnl(ct.Lets)
+	for i := range lets {
+		if lets[i] != nil {
+			lets[i].Label = ct.Lets[i].Label
+		}
+	}
+	c2.Lets = lets
+	if ct.NoAllocWhen != nil && err == nil {
+		c2.NoAllocWhen, err = renameClause(ct.NoAllocWhen, m)
+	}
+	var rt []string
+	for _, r := range ct.Retains {
+		if n, ok := m[r]; ok {
+			r = n
+		}
+		rt = append(rt, r)
+	}
+	c2.Retains = rt
+	return &c2, err
 }
